@@ -191,6 +191,8 @@ PROPS = {
                    sweep_front("notations", 60, 2000, cats=["body", "slice"], compile=True),
                    sweep_front("getters", 60, 2000, cats=["body", "slice"], compile=True),
                    sweep_front("selection", 40, 1500, cats=["body", "header"], compile=True),
+                   sweep_front("errors", 60, 2000, cats=["body", "errflow"], compile=True),
+                   sweep_front("runtime", 60, 2000, cats=["body", "errflow", "slice", "hook"], compile=True),
                    sweep_front("generics", 40, 1500, cats=["body", "slice", "header"], compile=True),
                    sweep_front("slices", 60, 2000, cats=["body", "slice"], compile=True),
                    sweep_front("hooks", 60, 2000, cats=["hook"], compile=True)],
